@@ -375,6 +375,12 @@ def main(argv=None):
     }
     if hasattr(cm, "extra_evidence"):
         ev["coverage"].update(cm.extra_evidence())
+    # every obligation labelled bounded (executed / sampled stand-ins), whether or not the contract module describes its bound: never part of
+    # "obligations"/"discharged" above, never counted as proved
+    b_obs = [o for o in obligations if o.get("bounded") and not o["name"].endswith("/mustfail")]
+    ev["coverage"]["bounded_stand_ins"] = {"count": len(b_obs), "held": sum(1 for o in b_obs if o["status"] == "discharged"),
+                                           "by_backend": {k: sum(1 for o in b_obs if (o.get("backend") or "?") == k) for k in sorted({o.get("backend") or "?" for o in b_obs})},
+                                           "obligations": [{"name": o["name"], "what": (o.get("where") or "")[:300], "status": o["status"]} for o in b_obs[:400]]}
     os.makedirs(os.path.join(ROOT, "evidence"), exist_ok=True)
     json.dump(ev, open(os.path.join(ROOT, "evidence", f"{pid}.json"), "w"), indent=1, default=str)
 
